@@ -58,6 +58,19 @@ def gen(ctx):
                       "rbuf": [4096], "lockstep": True, "quiesce_each": True}
                 scen.append({"id": "coalesce%d" % k, "client": "real", "server": srv, "seed": "", "siat": 0, "ciat": ciat, "biased": False, "legacy": False,
                              "spad": rng.choice([0, 1, 300, 8051]), "cpad": 77, "refpad": False, "rseed": k, "script": sc}); k += 1
+    # back-pressure: one endpoint's writer is blocked in the network write (bounded send window, forwarding stalled) while
+    # data for it arrives: its reader must still deliver everything the peer wrote
+    j = 0
+    for c, s in (("real", "real"), ("real", "ref"), ("ref", "real")):
+        for blocked in ("c", "s"):
+            for iat in ((0,) if quick else (0, 1)):
+                big, small = [200000], [5000, 100, 1]
+                pol = {"mode": "whole", "window": 8192, "stall_at": 30000}
+                sc = {"cw": big if blocked == "c" else small, "sw": small if blocked == "c" else big,
+                      "c2s": pol if blocked == "c" else {"mode": "random", "seed": j}, "s2c": pol if blocked == "s" else {"mode": "random", "seed": j},
+                      "rbuf": [4096], "lockstep": False, "quiesce_each": False}
+                scen.append({"id": "backpressure%d" % j, "client": c, "server": s, "seed": "", "siat": iat if blocked == "s" else 0, "ciat": iat if blocked == "c" else 0,
+                             "biased": False, "legacy": False, "spad": 100, "cpad": 100, "refpad": False, "rseed": j, "script": sc}); j += 1
     # cuts around frame boundaries of a predictable stream: reference sender (no padding) -> real receiver
     for (c, s, hs) in (("real", "ref", 96), ("ref", "real", 64)):
         for pad in ((0, 300) if s == "ref" else (77, 300)):
@@ -91,9 +104,7 @@ def run(ctx):
     traces = ctx.exec_scenarios(binary, scen, "c01", shards=14, timeout=2400)
     if len(traces) != len(scen) and not any(t.get("crashed") for t in traces):
         raise Inconclusive("%d scenarios, %d traces" % (len(scen), len(traces)))
-    dead = [(t["id"], [e for e in t["events"] if e.get("event") == "DriverDead"]) for t in traces if any(e.get("event") == "DriverDead" for e in t["events"])]
-    if dead:
-        raise Inconclusive("driver could not complete scenarios %s" % dead[:3])
+    traces = ctx.drop_dead(traces)
     nev = sum(len(t["events"]) for t in traces)
     ctx.sample({"scenario": traces[0]["scenario"], "events": traces[0]["events"][:8]})
     co = [t for t in traces if t["id"].startswith("coalesce")][0]
